@@ -713,6 +713,18 @@ func (c *Ctx) ruleIgnoreSetAdd() {
 							}
 							return false
 						})
+						// s.MinPos = min(s.MinPos, marker.StartPos) where MinPos is set already (NoPos is the smallest
+						// position: taken into a minimum it would stay)
+						if mc := builtinMinMax(x.Val, "min"); mc != nil && !okV {
+							a0, a1 := mc.Call.Args[0], mc.Call.Args[1]
+							isStart := func(v ssa.Value) bool {
+								return isFieldOf(P, v, "util.IgnoreMarker", "StartPos") || strings.Contains(P.Desc(v), "GetStartPos")
+							}
+							okV = (isFieldOf(P, a0, IS, "MinPos") && isStart(a1)) || (isFieldOf(P, a1, IS, "MinPos") && isStart(a0))
+							cut = P.BlockCutBy(b, func(l Lit) bool {
+								return l.Kind == "eq" && !l.Pos && (isFieldOf(P, l.X, IS, "MinPos") || isFieldOf(P, l.Y, IS, "MinPos")) && (isZeroPos(l.X) || isZeroPos(l.Y))
+							})
+						}
 						sawMin = okV && cut
 						c.check(okV && cut, "IGNORESET/MINMAX", name+"#MinPos", where, "MinPos = marker.StartPos iff unset or StartPos < MinPos", "MinPos is not maintained as the minimum of the markers' start positions: "+short(P.Desc(x.Val)))
 					case "MaxPos":
@@ -729,6 +741,15 @@ func (c *Ctx) ruleIgnoreSetAdd() {
 							}
 							return false
 						})
+						// s.MaxPos = max(s.MaxPos, marker.EndPos): right also while MaxPos is unset (NoPos is the smallest)
+						if mc := builtinMinMax(x.Val, "max"); mc != nil && !okV {
+							a0, a1 := mc.Call.Args[0], mc.Call.Args[1]
+							isEnd := func(v ssa.Value) bool {
+								return isFieldOf(P, v, "util.IgnoreMarker", "EndPos") || strings.Contains(P.Desc(v), "GetEndPos")
+							}
+							okV = (isFieldOf(P, a0, IS, "MaxPos") && isEnd(a1)) || (isFieldOf(P, a1, IS, "MaxPos") && isEnd(a0))
+							cut = okV
+						}
 						sawMax = okV && cut
 						c.check(okV && cut, "IGNORESET/MINMAX", name+"#MaxPos", where, "MaxPos = marker.EndPos iff unset or EndPos > MaxPos", "MaxPos is not maintained as the maximum of the markers' end positions: "+short(P.Desc(x.Val)))
 					case "Markers":
@@ -1136,4 +1157,17 @@ func formulaDNF(f *formula, val bool, depth int) [][]Lit {
 		return out
 	}
 	return [][]Lit{literals(f, val)}
+}
+
+// builtinMinMax: v is a call of the builtin min / max with two arguments.
+func builtinMinMax(v ssa.Value, name string) *ssa.Call {
+	call, ok := v.(*ssa.Call)
+	if !ok {
+		return nil
+	}
+	bi, ok := call.Call.Value.(*ssa.Builtin)
+	if !ok || bi.Name() != name || len(call.Call.Args) != 2 {
+		return nil
+	}
+	return call
 }
